@@ -12,8 +12,8 @@ ID = "C10"
 OPT_QUICK_ALL = True      # every partition also in a child interpreter started with -O
 LEVEL = "exploration"
 TECHNIQUE = "bounded exhaustive enumeration of codec layouts/values/orders against an independent whole-buffer integer oracle"
-RULE = ("int<->bytes: sizes 0..9 x (all values for size<=2, boundary alphabet above); single fields: every contiguous mask of "
-        "width 1..72 at bit alignment 0..7 x offsets {0,1,5} x trailing bytes {0,2} x prior content {00,FF,A5} outside the field "
+RULE = ("int<->bytes: sizes 0..9 and 16..257 x (all values for size<=2, boundary alphabet above); single fields: every contiguous mask of "
+        "width 1..72 (and 152, 256, 264, 512) at bit alignment 0..7 x offsets {0,1,5} x trailing bytes {0,2} x prior content {00,FF,A5} outside the field "
         "x values (exhaustive up to the tier's width, alphabet above); 2 and 3 non-overlapping fields x all supply orders; split fields (two runs of bits with a hole, a second field living in the hole) x 4x4x5 run widths x 4 alignments; blobs "
         "b/w/dw x lengths 0..4 x offsets, alone and mixed with a bit field; 2 and 3 blobs of every kind combination plus a bit field in every supply order; layout entries spelled as lists and as tuples (every single-field case both ways, multi-field layouts mixed), blob kind strings as literals and built at run time. A case is non-trivial when the value or the prior "
         "content is non-zero; distinct = distinct (kind, layout, value, prior, order) tuples.")
@@ -269,6 +269,8 @@ def replay(case):
 # ---------------------------------------------------------------------------------
 def partitions(tier):
     parts = [["int"], ["blob"], ["blobs", 2], ["blobs", 3], ["split"]]
+    for w in (152, 256, 264, 512):          # masks wider than 9 / 19 / 32 bytes
+        parts.append(["single", w])
     for w in range(1, 73):
         parts.append(["single", w])
     widths2 = [1, 3, 8, 12, 16, 24, 32, 40, 64]
@@ -283,11 +285,14 @@ def gen(part, tier):
     kind = part[0]
     xw = bounds(tier)["exhaustive_value_width"]
     if kind == "int":
-        for size in range(0, 10):
+        for size in list(range(0, 10)) + [16, 19, 31, 32, 33, 40, 64, 65, 100, 255, 256, 257]:
             if size <= 2:
                 vals = range(256 ** size)
-            else:
+            elif size < 10:
                 vals = bits.alphabet(8 * size)
+            else:
+                # wide integers (the widest shipped layout entry spans 19 bytes): top byte, bottom byte, all ones, a ramp
+                vals = [0, 1, (1 << (8 * size)) - 1, 1 << (8 * size - 1), 0xA5 << (8 * (size - 1)), int.from_bytes(bytes((i * 7 + 1) & 0xFF for i in range(size)), "big")]
             for v in vals:
                 yield ("int", size, v)
     elif kind == "single":
